@@ -459,6 +459,7 @@ func (w *tworld) enabled() []act {
 		}
 		r.mu.Lock()
 		want, got, rb, done, end, cl := r.wantBody, r.gotRes, r.rbusy, r.done, r.readEnd, r.closed
+		bodyOpen := !r.bodyEOF // the request body has not been ended by the client (it may be blocked on a window)
 		r.mu.Unlock()
 		if want && !s.Closed() {
 			for _, n := range cfg.BodyN {
@@ -498,7 +499,7 @@ func (w *tworld) enabled() []act {
 					out = append(out, act{K: "data", S: i, N: n, P: p})
 				}
 			}
-			if !(cfg.SrvMaxStreams > 0 && want) {
+			if !(cfg.SrvMaxStreams > 0 && bodyOpen) {
 				// (with requests waiting for a stream slot: no END_STREAM from the server while the request body is
 				// still being sent - the same random select as above then decides when the slot is given up, and with
 				// it whether the waiting request is on the wire at the next quiescent point)
